@@ -176,9 +176,12 @@ family! {
     /// untagged enum: the content alone
     #[serde(untagged)]
     pub enum G { A(u8), B(bool), C { x: u8 } }
-    /// untagged enum with a unit variant (unit = empty array) and a char
+    /// untagged enum with a unit variant (unit = empty array)
     #[serde(untagged)]
     pub enum H { A, B(bool) }
+    /// untagged enum holding a char (char = its scalar value as an unsigned integer)
+    #[serde(untagged)]
+    pub enum Hc { A(char) }
     /// inner part of the flattened struct
     pub struct Q { pub b: bool }
     /// struct with a flattened member: one map with the members of both
@@ -399,7 +402,7 @@ mod h {
     ser_t!(c17_ser_struct1, S1, |v, o| o.map(1).t1(b'a').bool(v.a), |n| n == 4);
     // @harness name=c17_ser_enum_ext props=C17 kind=complete
     ser_t!(c17_ser_enum_ext, E, |v, o| ref_e(o, &v), |n| n == 8);
-    // @harness name=c17_ser_nested props=C17 kind=complete
+    // @harness name=c17_ser_nested props=C17 kind=complete tier=thorough
     ser_t!(c17_ser_nested, P, |v, o| {
         let o = ref_e(o.map(3).t1(b'e'), &v.e).t1(b'n');
         let o = match v.n { Some(N(x)) => o.uint(x as u64), None => o.null() };
@@ -572,7 +575,7 @@ mod h {
     });
 
     // ---- immediate-form u8 leaves (preferred form of v < 24), sampled
-    // @harness name=c17_de_imm_samples props=C17 kind=bounded bound="u8 leaves in {0, 23} in immediate form; struct S (b=Some), tuple struct T, enum E::B"
+    // @harness name=c17_de_imm_samples props=C17 kind=bounded tier=thorough bound="u8 leaves in {0, 23} in immediate form; struct S (b=Some), tuple struct T, enum E::B"
     de_h!(c17_de_imm_samples, || {
         let (a, b): (u8, u8) = kani::any();
         kani::assume((a == 0 || a == 23) && (b == 0 || b == 23));
@@ -618,7 +621,7 @@ mod h {
     });
 
     // ---- re-framed input (wider heads, indefinite containers): the same value or an error, never another value
-    // @harness name=c18_reframe_struct_wide props=C18,C17 kind=bounded bound="struct S1: map head and text head with 1/2/4/8 argument bytes"
+    // @harness name=c18_reframe_struct_wide props=C18,C17 kind=bounded tier=thorough bound="struct S1: map head and text head with 1/2/4/8 argument bytes"
     de_h!(c18_reframe_struct_wide, || {
         let a: bool = kani::any();
         let (wm, wt): (u8, u8) = kani::any();
@@ -662,17 +665,232 @@ mod h {
             true
         })
     });
-    // @harness name=c18_reframe_enum props=C18,C17 kind=bounded bound="enum E::B as map(1) with a wide head, as an indefinite map, and E::A / E::B with wide text heads"
+    // @harness name=c18_reframe_enum props=C18,C17 kind=bounded bound="enum E::B as map(1) with a wide map head / wide text head, E::A with a wide text head; the indefinite-map framing is not covered (see NOTES.md)"
     de_h!(c18_reframe_enum, || {
         let x: u8 = kani::any();
         let o = Out::new(kani::any()).head_w(5, 1, 1).t1(b'B').u8w(x);
-        value_or_error(&o, &E::B(x));
-        let o = Out::new(kani::any()).map_indef().t1(b'B').u8w(x).brk();
         value_or_error(&o, &E::B(x));
         let o = Out::new(kani::any()).map(1).head_w(3, 1, 2).put(b'B').u8w(x);
         value_or_error(&o, &E::B(x));
         let o = Out::new(kani::any()).head_w(3, 1, 1).put(b'A');
         value_or_error(&o, &E::A);
         true
+    });
+
+    // ---- enum representations that go through serde's buffered `Content` (deserialize_any): internally tagged,
+    //      adjacently tagged, untagged.  Fully literal structure; u8 leaves 18 vv.
+    //      NOT COVERED on the deserializer side: shapes whose buffered Content is a non-empty map (internally tagged
+    //      struct variant I::B, untagged struct variant G::C, flattened struct F): the recursive drop glue of
+    //      serde's Content is unrolled at every level by CBMC; > 17 min / 13 GB even on literal input.  Their
+    //      serializer side is covered (section 2); ground truth on literal inputs was taken natively (NOTES.md).
+    use super::Hc;
+
+    // @harness name=c17_de_internal_unit props=C17 kind=complete
+    de_h!(c17_de_internal_unit, || { let o = Out::new(kani::any()).map(1).t1(b't').t1(b'A'); expect_de(&o, &I::A) });
+    // @harness name=c17_de_adjacent_unit props=C17 kind=complete
+    de_h!(c17_de_adjacent_unit, || { let o = Out::new(kani::any()).map(1).t1(b't').t1(b'A'); expect_de(&o, &J::A) });
+    // @harness name=c17_de_adjacent_newtype props=C17 kind=bounded bound="u8 leaf in the form 18 vv (all 256 values)"
+    de_h!(c17_de_adjacent_newtype, || {
+        let x: u8 = kani::any();
+        let o = Out::new(kani::any()).map(2).t1(b't').t1(b'B').t1(b'c').u8w(x);
+        expect_de(&o, &J::B(x))
+    });
+    // @harness name=c17_de_untagged_u8 props=C17 kind=bounded bound="variant G::A, u8 leaf in the form 18 vv (all 256 values)"
+    de_h!(c17_de_untagged_u8, || { let x: u8 = kani::any(); let o = Out::new(kani::any()).u8w(x); expect_de(&o, &G::A(x)) });
+    // @harness name=c17_de_untagged_bool props=C17 kind=complete
+    de_h!(c17_de_untagged_bool, || {
+        let y: bool = kani::any();
+        each_bool!(y, |yc| { let o = Out::new(kani::any()).bool(yc); expect_de(&o, &G::B(yc)) })
+    });
+    // H: the unit variant H::A is excluded here (it fails: kf_untagged_unit_variant)
+    // @harness name=c17_de_untagged_h_bool props=C17 kind=bounded bound="H::B only; H::A is the defect class of kf_untagged_unit_variant"
+    de_h!(c17_de_untagged_h_bool, || {
+        let y: bool = kani::any();
+        each_bool!(y, |yc| { let o = Out::new(kani::any()).bool(yc); expect_de(&o, &H::B(yc)) })
+    });
+
+    // ---- known failures (candidate defects): each asserts the CORRECT behaviour on the failing class only
+    // H::A serialises to the empty array 80 (c17_ser_untagged_unit), 80 does not deserialise back to H::A
+    // @harness name=kf_untagged_unit_variant props=C17 kind=complete note="DEFECT: untagged enum unit variant: to_bytes(H::A) = 80, from_slice::<H>(80) = Err"
+    de_h!(kf_untagged_unit_variant, || { let o = Out::new(kani::any()).unit(); expect_de(&o, &H::A) });
+    // a char serialises to its scalar value (unsigned integer); behind deserialize_any (untagged / flatten / internally tagged)
+    // serde's buffered content holds an integer, which char's Deserialize rejects
+    // @harness name=kf_untagged_char props=C17 kind=bounded bound="Hc::A('a'), bytes 18 61" note="DEFECT: char inside an untagged enum does not round-trip"
+    de_h!(kf_untagged_char, || { let o = Out::new(kani::any()).u8w(0x61); expect_de(&o, &Hc::A('a')) });
+
+    // ============================================================================================
+    // 4. C18 decoding side for the shared primitives.
+    //    (a) agreement on ALL inputs: 10 fully symbolic bytes decoded natively and through the bridge; whenever
+    //        both return a value the values and the positions are equal (covers every re-framing: wider heads,
+    //        other majors, truncation is impossible in 10 bytes only for the longest head);
+    //    (b) cross-decoding: the reference encoding of every value v (identical to what either side produces,
+    //        section 1) decodes on BOTH sides to v, consuming exactly the item (symbolic junk follows).
+    // ============================================================================================
+    macro_rules! de_prim {
+        ($name:ident, $t:ty, |$v:ident, $o:ident| $refx:expr, |$x:ident, $y:ident| $eq:expr) => {
+            #[kani::proof]
+            #[kani::stub(minicbor::decode::Decoder::skip, crate::skip_stub)]
+            #[kani::unwind(4)]
+            fn $name() {
+                // (a)
+                let buf: [u8; 10] = kani::any();
+                let a = de::<$t>(&buf[..]);
+                let b = nde::<$t>(&buf[..]);
+                if let (Some(($x, p)), Some(($y, q))) = (&a, &b) { assert!($eq); assert!(p == q); }
+                // (b)
+                let $v: $t = kani::any();
+                let $o = Out::new(kani::any());
+                let w: Out = $refx;
+                let c = de::<$t>(&w.b[..]);
+                let d = nde::<$t>(&w.b[..]);
+                match (&c, &d) {
+                    (Some(($x, p)), Some(($y, q))) => { assert!($eq); assert!(*p == w.n && *q == w.n); let $y = &$v; assert!($eq); }
+                    _ => assert!(false)
+                }
+                kani::cover!(a.is_some() && b.is_some() && c.is_some());
+            }
+        }
+    }
+
+    // @harness name=c18_de_u8 props=C18,C17 kind=complete
+    de_prim!(c18_de_u8, u8, |v, o| o.uint(v as u64), |x, y| x == y);
+    // @harness name=c18_de_u16 props=C18,C17 kind=complete
+    de_prim!(c18_de_u16, u16, |v, o| o.uint(v as u64), |x, y| x == y);
+    // @harness name=c18_de_u32 props=C18,C17 kind=complete
+    de_prim!(c18_de_u32, u32, |v, o| o.uint(v as u64), |x, y| x == y);
+    // @harness name=c18_de_u64 props=C18,C17 kind=complete
+    de_prim!(c18_de_u64, u64, |v, o| o.uint(v), |x, y| x == y);
+    // @harness name=c18_de_i8 props=C18,C17 kind=complete
+    de_prim!(c18_de_i8, i8, |v, o| o.int(v as i128), |x, y| x == y);
+    // @harness name=c18_de_i16 props=C18,C17 kind=complete
+    de_prim!(c18_de_i16, i16, |v, o| o.int(v as i128), |x, y| x == y);
+    // @harness name=c18_de_i32 props=C18,C17 kind=complete
+    de_prim!(c18_de_i32, i32, |v, o| o.int(v as i128), |x, y| x == y);
+    // @harness name=c18_de_i64 props=C18,C17 kind=complete
+    de_prim!(c18_de_i64, i64, |v, o| o.int(v as i128), |x, y| x == y);
+    // @harness name=c18_de_bool props=C18,C17 kind=complete
+    de_prim!(c18_de_bool, bool, |v, o| o.bool(v), |x, y| x == y);
+    // @harness name=c18_de_char props=C18,C17 kind=complete
+    de_prim!(c18_de_char, char, |v, o| o.char(v), |x, y| x == y);
+    // @harness name=c18_de_f32 props=C18,C17 kind=complete note="values compared by bit pattern"
+    de_prim!(c18_de_f32, f32, |v, o| o.f32(v), |x, y| x.to_bits() == y.to_bits());
+    // @harness name=c18_de_f64 props=C18,C17 kind=complete note="values compared by bit pattern"
+    de_prim!(c18_de_f64, f64, |v, o| o.f64(v), |x, y| x.to_bits() == y.to_bits());
+    // @harness name=c18_de_unit props=C18,C17 kind=complete
+    de_prim!(c18_de_unit, (), |v, o| { let _ = v; o.unit() }, |x, y| x == y);
+    // @harness name=c18_de_opt_u8 props=C18,C17 kind=complete
+    de_prim!(c18_de_opt_u8, Option<u8>, |v, o| o.opt_u8(v), |x, y| x == y);
+
+    // fixed array and tuple: concrete structure (see section 3), u8 / u16 leaves with one / two argument bytes,
+    // definite and indefinite framing, both sides
+    // @harness name=c18_de_arr2 props=C18,C17 kind=bounded bound="[u8; 2]: leaves 18 vv (all values); definite, wide-head and indefinite framing"
+    #[kani::proof]
+    #[kani::stub(minicbor::decode::Decoder::skip, crate::skip_stub)]
+    #[kani::unwind(5)]
+    fn c18_de_arr2() {
+        let (x, y): (u8, u8) = kani::any();
+        let want = [x, y];
+        let o = Out::new(kani::any()).arr(2).u8w(x).u8w(y);
+        let c = de::<[u8; 2]>(&o.b[..]);
+        let d = nde::<[u8; 2]>(&o.b[..]);
+        assert!(c == Some((want, o.n)) && d == Some((want, o.n)));                     // cross-decoding
+        let o = Out::new(kani::any()).head_w(4, 2, 2).u8w(x).u8w(y);                     // wide array head
+        let c = de::<[u8; 2]>(&o.b[..]);
+        let d = nde::<[u8; 2]>(&o.b[..]);
+        assert!(c.is_none() || c == Some((want, o.n)));
+        assert!(d.is_none() || d == Some((want, o.n)));
+        let o = Out::new(kani::any()).arr_indef().u8w(x).u8w(y).brk();                   // indefinite array
+        let c = de::<[u8; 2]>(&o.b[..]);
+        let d = nde::<[u8; 2]>(&o.b[..]);
+        assert!(c.is_none() || c == Some((want, o.n)));
+        assert!(d.is_none() || d == Some((want, o.n)));
+        kani::cover!(x != y);
+    }
+    // @harness name=c18_de_tup2 props=C18,C17 kind=bounded bound="(u8, u16): leaves 18 vv / 19 vvvv (all values); definite, wide-head and indefinite framing"
+    #[kani::proof]
+    #[kani::stub(minicbor::decode::Decoder::skip, crate::skip_stub)]
+    #[kani::unwind(5)]
+    fn c18_de_tup2() {
+        let (x, y): (u8, u16) = kani::any();
+        let want = (x, y);
+        let o = Out::new(kani::any()).arr(2).u8w(x).head_w(0, y as u64, 2);
+        let c = de::<(u8, u16)>(&o.b[..]);
+        let d = nde::<(u8, u16)>(&o.b[..]);
+        assert!(c == Some((want, o.n)) && d == Some((want, o.n)));
+        let o = Out::new(kani::any()).head_w(4, 2, 1).u8w(x).head_w(0, y as u64, 2);
+        let c = de::<(u8, u16)>(&o.b[..]);
+        let d = nde::<(u8, u16)>(&o.b[..]);
+        assert!(c.is_none() || c == Some((want, o.n)));
+        assert!(d.is_none() || d == Some((want, o.n)));
+        let o = Out::new(kani::any()).arr_indef().u8w(x).head_w(0, y as u64, 2).brk();
+        let c = de::<(u8, u16)>(&o.b[..]);
+        let d = nde::<(u8, u16)>(&o.b[..]);
+        assert!(c.is_none() || c == Some((want, o.n)));
+        assert!(d.is_none() || d == Some((want, o.n)));
+        kani::cover!(y > 255);
+    }
+
+    // ---- nested: struct holding an externally tagged enum, an Option of a newtype struct and a unit
+    // @harness name=c17_de_nested props=C17 kind=bounded bound="P with (e, n) in {(A, None), (B(x), Some(N(y)))}; leaves 18 vv / 19 vvvv (all values)"
+    de_h!(c17_de_nested, || {
+        let (x, y, k): (u8, u16, bool) = kani::any();
+        if k {
+            let o = Out::new(kani::any()).map(3).t1(b'e').t1(b'A').t1(b'n').null().t1(b'u').unit();
+            expect_de(&o, &P { e: E::A, n: None, u: () })
+        } else {
+            let o = Out::new(kani::any()).map(3).t1(b'e').map(1).t1(b'B').u8w(x).t1(b'n').head_w(0, y as u64, 2).t1(b'u').unit();
+            expect_de(&o, &P { e: E::B(x), n: Some(N(y)), u: () })
+        }
+    });
+
+    // ---- text and byte strings (serialize_str / serialize_bytes / deserialize_str / deserialize_bytes), bounded
+    // @harness name=c17_ser_bytes props=C17 kind=bounded bound="byte strings of length <= 3, symbolic content"
+    #[kani::proof]
+    #[kani::unwind(5)]
+    fn c17_ser_bytes() {
+        let init: [u8; K] = kani::any();
+        let src: [u8; 3] = kani::any();
+        let len: usize = kani::any();
+        kani::assume(len <= 3);
+        let (a, n) = ser(&By(&src[..len]), init);
+        let mut w = Out::new(init).head(2, len as u64);
+        if len >= 1 { w = w.put(src[0]) }
+        if len >= 2 { w = w.put(src[1]) }
+        if len >= 3 { w = w.put(src[2]) }
+        assert!(n == w.n && r::same(&a, &w.b, K));
+        kani::cover!(n == 4);
+    }
+    // @harness name=c17_ser_text props=C17,C18 kind=bounded tier=thorough bound="ASCII text of length <= 2, symbolic content; bridge == native == reference"
+    #[kani::proof]
+    #[kani::unwind(5)]
+    fn c17_ser_text() {
+        let init: [u8; K] = kani::any();
+        let src: [u8; 2] = kani::any();
+        kani::assume(src[0] < 0x80 && src[1] < 0x80);
+        let len: usize = kani::any();
+        kani::assume(len <= 2);
+        let t: &str = match core::str::from_utf8(&src[..len]) { Ok(t) => t, Err(_) => { assert!(false); "" } };
+        let (a, n) = ser(&t, init);
+        let (b, m) = nat(&t, init);
+        let mut w = Out::new(init).head(3, len as u64);
+        if len >= 1 { w = w.put(src[0]) }
+        if len >= 2 { w = w.put(src[1]) }
+        assert!(n == w.n && r::same(&a, &w.b, K));
+        assert!(m == n && r::same(&a, &b, K));
+        kani::cover!(n == 3);
+    }
+    // @harness name=c17_de_bytes props=C17 kind=bounded bound="byte string of length 2, symbolic content"
+    de_h!(c17_de_bytes, || {
+        let (x, y): (u8, u8) = kani::any();
+        let o = Out::new(kani::any()).head(2, 2).put(x).put(y);
+        let want = [x, y];
+        expect_de(&o, &By(&want[..]))
+    });
+    // @harness name=c17_de_text props=C17,C18 kind=bounded bound="the text ab; bridge and native side"
+    de_h!(c17_de_text, || {
+        let o = Out::new(kani::any()).t2(b'a', b'b');
+        let d = nde::<&str>(&o.b[..]);
+        assert!(d == Some(("ab", o.n)));
+        expect_de(&o, &"ab")
     });
 }
